@@ -436,6 +436,12 @@ func gffPhases(f Feature) []int {
 // RenderGFF renders the annotation as GFF3 with a ##FASTA section.
 // withFasta=false omits the sequence (the reference must then come from --reference).
 func RenderGFF(r *fw.Rng, a Annotation, withFasta bool) string {
+	return RenderGFFSeq(r, a, withFasta, a.Ref)
+}
+
+// RenderGFFSeq is RenderGFF with an explicit sequence for the ##FASTA section (which may
+// differ from the reference the caller passes separately, e.g. an older genome version).
+func RenderGFFSeq(r *fw.Rng, a Annotation, withFasta bool, fastaSeq string) string {
 	var sb strings.Builder
 	sb.WriteString("##gff-version 3\n")
 	if r.Chance(0.5) {
@@ -472,7 +478,7 @@ func RenderGFF(r *fw.Rng, a Annotation, withFasta bool) string {
 	}
 	if withFasta {
 		sb.WriteString("##FASTA\n>" + a.RefName + "\n")
-		sb.WriteString(WrapSeq(a.Ref, []int{0, 60, 70}[r.Intn(3)]))
+		sb.WriteString(WrapSeq(fastaSeq, []int{0, 60, 70}[r.Intn(3)]))
 	}
 	return sb.String()
 }
